@@ -19,7 +19,9 @@ RULE = ('one request against one AuthTktCookieHelper configuration: a cookie val
         'kept / edited / spliced / re-cased / re-quoted / given a non-ASCII character (each UTF-8 length class, literal or '
         'percent-escaped) in one chosen field, issued under another secret, algorithm or address, signed '
         'foreign fields, or garbage) x clock (incl. issue+timeout+{-1,0,1}, issue+reissue_time+{-1,0,1}) x a sequence '
-        '(whole and +0.5 s) x a sequence of <= 5 identify/remember/forget calls, response callbacks run, every issued cookie fed back into a fresh '
+        '(whole and +0.5 s; constant, or running: one second passes between the first and later readings of an operation) '
+        'x a sequence of <= 6 identify/remember/forget calls on the helper -- in 22 % of the cases interleaved with calls on a '
+        'SECOND helper (other secret / algorithm / address binding / cookie name) consulted for the same request --  response callbacks run, every issued cookie fed back into a fresh '
         'identify; non-trivial = the request carries a cookie that reaches the digest comparison (fields parse) or the '
         'sequence issues a ticket; distinct by full case')
 ASSUMPTIONS = [
@@ -53,7 +55,8 @@ TECHNIQUE = ('Coq proofs about a Gallina program whose control flow is translate
              '(harness/c09/translate.py: fail-closed ast -> Gallina, leaves through a primitive table), proved equal to a '
              'hand-written reference model; hash function abstract (theorems hold for every H); regenerated constants; '
              'differential correspondence of the extracted REGENERATED program with a hashlib oracle')
-LEVEL_TEXT = ('Machine-checked theorems for every cookie string, clock value (whole and half seconds), configuration and '
+LEVEL_TEXT = ('Machine-checked theorems for every cookie string, clock value (whole and half seconds, constant or running), configuration, '
+              'interleaving of two helpers on one request and '
               'operation sequence, stated both about the reference model and literally about the program regenerated from '
               'src/pyramid/authentication.py on this run (..._generated); C09_generated_*_is_model prove function by function '
               '(one induction per loop) that the regenerated program is the reference model, so a semantics-preserving rewrite '
@@ -77,8 +80,13 @@ _impl = {}
 
 class _Clock:
     t = 0
+    ticking = False      # a running clock: the first reading of an operation shows t, every later one t + 1
+    reads = 0
 
     def time(self):
+        self.reads += 1
+        if self.ticking and self.reads > 1:
+            return self.t + 1
         return self.t
 
 
@@ -213,27 +221,42 @@ def run_impl(case):
         oc = [] if v is None else [v]
         _impl['clock'].t = tnow
     req = _mkreq(rq, cfg['cookie_name'], rq['cookie'])
+    h2 = None
+    if case.get('second'):
+        # a second helper consulted for the SAME request object (its own cookie name, or the same one)
+        c2 = case['second']['cfg']
+        h2 = _helper(c2)
+        if case.get('seam'):
+            h2.now = tnow
+        if c2['cookie_name'] != cfg['cookie_name'] and case['second']['cookie'] is not None:
+            req.environ['verif.cookies'][c2['cookie_name']] = case['second']['cookie']
     outs, fed = [], []
+    clock = _impl['clock']
     for op in case['ops']:
-        if op[0] == 0:
+        second = op[0] >= 3
+        hh = h2 if second else h
+        kind = op[0] % 3
+        clock.reads, clock.ticking = 0, bool(rq.get('tick'))
+        if kind == 0:
             try:
-                outs.append([0, _idres(h.identify(req))])
+                outs.append([0, _idres(hh.identify(req))])
             except Exception:
                 outs.append([0, [2]])
         else:
             try:
-                if op[0] == 1:
+                if kind == 1:
                     kw = {'tokens': tuple(op[3])}
                     if op[2] is not None:
                         kw['max_age'] = op[2]
-                    hs = (pol or h).remember(req, _py_uval(op[1]), **kw)
+                    hs = (hh if second else (pol or h)).remember(req, _py_uval(op[1]), **kw)
                 else:
-                    hs = (pol or h).forget(req)
+                    hs = (hh if second else (pol or h)).forget(req)
                 cks = _cookies_of(hs)
                 outs.append([2, cks])
                 fed += [c[1][0] for c in cks if c[1]]
             except Exception:
                 outs.append([1])
+    clock.ticking = False
     resp = _impl['Response']()
     n0 = len(resp.headerlist)
     try:
@@ -318,14 +341,23 @@ def _base_wire(case, htab):
     if o:
         algs.add(o['hashalg'])
         org = [[o['secret'], o['hashalg'], o['ip'], o['t0'], o['u'], list(o['tokens'])]]
+    sec, sec_cookie = [], None
+    if case.get('second'):
+        c2 = case['second']['cfg']
+        algs.add(c2['hashalg'])
+        # the second helper reads its own cookie; with the same cookie name it reads the same value
+        sec_cookie = rq['cookie'] if c2['cookie_name'] == cfg['cookie_name'] else case['second']['cookie']
+        sec = [_cfg_wire(c2), _opt(sec_cookie)]
     dt = [[a, hashlib.new(a).digest_size] for a in sorted(algs)]
-    ops = [[0] if op[0] == 0 else [2] if op[0] == 2 else [1, op[1], _opt(op[2]), list(op[3])] for op in case['ops']]
-    return [_cfg_wire(cfg), [_opt(rq['cookie']), rq['ip'], _host_domain(rq['host']), rq['now'], bool(rq.get('half'))], ops, org,
-            [dt, htab, _uni_table(rq['cookie'])]]
+    ops = [[op[0]] if op[0] % 3 != 1 else [op[0], op[1], _opt(op[2]), list(op[3])] for op in case['ops']]
+    return [_cfg_wire(cfg), [_opt(rq['cookie']), rq['ip'], _host_domain(rq['host']), rq['now'], bool(rq.get('half')), bool(rq.get('tick'))], ops, org,
+            [dt, htab, _uni_table((rq['cookie'] or '') + (sec_cookie or ''))], sec]
 
 
 def _answer(case, missing, htab, seen):
     secrets = {case['cfg']['secret'].encode('utf-8')}
+    if case.get('second'):
+        secrets.add(case['second']['cfg']['secret'].encode('utf-8'))
     if case.get('origin'):
         secrets.add(case['origin']['secret'].encode('utf-8'))
     for alg, msg in missing:
@@ -465,18 +497,26 @@ def _problems(case, obs, spec):
     bad = []
     if not isinstance(obs, list) or len(obs) != 4 or (obs and obs[0] == 'HARNESS-EXC'):
         return [('harness', obs)]
-    dok, expect, sresp, sattrs = spec
+    doks, expect, sresp, sattrs = spec
     oc, outs, resp, fb = obs
-    ids = _ids(obs)
+    multi = any(op[0] >= 3 for op in case['ops'])       # a second helper was consulted for this request
+    tick = 1 if case['req'].get('tick') else 0
     for o in outs:
         if o and o[0] == 'POLICY-DELEGATION':
             bad.append(('policy-delegation', o))
     org = case.get('origin')
-    for r in ids:
+    ids = []
+    for op, o in zip(case['ops'], outs):
+        if o[0] != 0:
+            continue
+        r = o[1]
+        dok = doks[1 if op[0] >= 3 else 0]      # each helper answers for ITS secret / algorithm / address
+        if op[0] < 3:
+            ids.append(r)
         if r == [2] and not dok:      # a validly signed cookie with foreign contents is outside the claim
             bad.append(('never-raises', r))
         if r[0] == 1 and not dok:
-            bad.append(('digest-law', r))
+            bad.append(('digest-law', [op[0], r]))
     if expect[0] == 1 and ids:
         want = expect[1]
         got = ids[0]
@@ -495,6 +535,8 @@ def _problems(case, obs, spec):
     # reissue
     if resp and resp[0] == 'CALLBACK-EXC':
         bad.append(('callback-raises', resp))
+    elif multi:
+        return bad        # shared request flags of two helpers: the reissue / attribute clauses are stated for one helper
     elif resp != sresp:
         bad.append(('reissue', [resp, sresp]))
     # issued cookies: attributes, and they identify as what was remembered
@@ -524,8 +566,8 @@ def _problems(case, obs, spec):
                 got = fb[k] if k < len(fb) else None
                 k += 1
                 to = case['cfg']['timeout']
-                if first and (to is None or to >= 0) and 0 <= case['req']['now'] < 2 ** 32:
-                    if not got or got[0] != 1 or got[1] != case['req']['now'] or got[2] != first[0][2] \
+                if first and (to is None or to >= 0) and 0 <= case['req']['now'] + tick < 2 ** 32:
+                    if not got or got[0] != 1 or got[1] != case['req']['now'] + tick or got[2] != first[0][2] \
                             or _tokset(got[3]) != _tokset(first[0][3]):
                         bad.append(('reissued-ticket-valid', [got, first[0]]))
     return bad
@@ -544,7 +586,7 @@ def classify(case, obs, spec):
     clauses = sorted(set(p[0] for p in pr))
     if clauses == ['never-raises'] and _nonascii_digest(case):
         return 'C09-nonascii-digest-typeerror'
-    if clauses and set(clauses) <= {'reissue'} and any(op[0] == 1 for op in case['ops']):
+    if clauses and set(clauses) <= {'reissue'} and any(op[0] == 1 for op in case['ops']) and not any(op[0] >= 3 for op in case['ops']):
         ops = case['ops']
         first_id = min((i for i, op in enumerate(ops) if op[0] == 0), default=None)
         if first_id is not None and any(op[0] == 1 for op in ops[:first_id]) and not any(op[0] == 2 for op in ops) \
@@ -590,6 +632,11 @@ def kinds(case, obs):
         ks.append('clock-fraction:.5')
     if case.get('via_policy'):
         ks.append('via-AuthTktAuthenticationPolicy')
+    if case.get('second'):
+        ks.append('second-helper:' + ('same-cookie-name' if case['second']['cfg']['cookie_name'] == case['cfg']['cookie_name']
+                                      else 'own-cookie'))
+    if case['req'].get('tick'):
+        ks.append('running-clock')
     if case['cfg']['include_ip']:
         ks.append('ip:' + ('v6' if ':' in case['req']['ip'] else 'v4'))
     return ks
@@ -621,6 +668,12 @@ def shrinks(case):
     for k, dv in _DEFAULT_CFG.items():
         if case['cfg'][k] != dv:
             yield w(cfg=dict(case['cfg'], **{k: dv}))
+    if case['req'].get('tick'):
+        yield w(req=dict(case['req'], tick=False))
+    if case.get('second') and not any(op[0] >= 3 for op in ops):
+        yield w(second=None)
+    if case.get('via_policy'):
+        yield w(via_policy=False)
     if case.get('seam'):
         yield w(seam=False)
     if case.get('other_u') is not None:
